@@ -325,7 +325,7 @@ func (x *Exec) applyContract(p *Path, ct *Contract, vars map[string]SV, results 
 			}
 		}
 		if changed {
-			p.pendingExt = "ghost" // publishing changes no live container
+			p.pendingExt = "publish" // publishing changes no live container (but wf must be re-established)
 			x.upd(p, "Kind", kinds)
 		}
 	}
@@ -523,6 +523,7 @@ func (x *Exec) applyContract(p *Path, ct *Contract, vars map[string]SV, results 
 		x.seedFrame(p, &cfs, pre, post)
 		if !cfs.all && len(cfs.lists)+len(cfs.objs)+len(cfs.arrs)+len(cfs.maps) == 0 {
 			p.assume(fmt.Sprintf("(ext %s %s)", pre, post)) // nothing that existed was modified
+			p.prevH = ""
 			x.extStep(p, post, "ghost")
 		} else {
 			p.anchors = nil
